@@ -295,6 +295,27 @@ class Ctx:
     def note(self, s):
         self.notes.append(s)
 
+    def assume_forks(self, value=False):
+        """context manager: inside, every data-dependent branch on a symbolic value is resolved by ASSUMPTION
+        (the branch condition is taken to be `value` and added to the path condition).  Used for validity
+        preconditions such as 'no negative differential volume' (dV < 0 is assumed False)."""
+        import contextlib
+
+        @contextlib.contextmanager
+        def cm():
+            ex = self.explorer
+            if not self.sym or ex is None:
+                yield
+                return
+            old = ex.policy
+            ex.policy = lambda node: value
+            try:
+                yield
+            finally:
+                ex.policy = old
+
+        return cm()
+
     def concrete(self):
         """context manager: real NumPy inside (build meshes/regions concretely also in sym mode)"""
         from .npproxy import concrete_mode
